@@ -99,9 +99,21 @@ pub const VALUE_FAULTS: [Fault; 15] = [
     Fault::NegVolume,
     Fault::ZeroVolume,
 ];
-/// finite, magnitude-bounded disturbances (legal for C17)
-pub const FINITE_FAULTS: [Fault; 7] =
-    [Fault::Spike10, Fault::Spike1e3, Fault::Spike1e6, Fault::RegimeShift, Fault::Stall, Fault::Duplicate, Fault::Drop];
+/// finite, non-negative, magnitude-bounded disturbances (legal for C17)
+pub const FINITE_FAULTS: [Fault; 12] = [
+    Fault::Spike10,
+    Fault::Spike1e3,
+    Fault::Spike1e6,
+    Fault::RegimeShift,
+    Fault::Stall,
+    Fault::Duplicate,
+    Fault::Drop,
+    Fault::Zero,
+    Fault::NegZero,
+    Fault::MinPos,
+    Fault::Subnormal,
+    Fault::ZeroVolume,
+];
 
 pub const ALL_FEED_FAULTS: [Fault; 22] = [
     Fault::Nan,
